@@ -571,13 +571,26 @@ func (s *TeeingTemporalStore) Add(atom ast.Atom, interval ast.Interval) (bool, e
 	// TemporalStore.Add returns false if duplicate.
 	// We can check Contains? No, ContainsAt checks point.
 	// Ideally we check if exact fact exists.
-	// For now, let's just write to Out. Duplicate facts are usually harmless or handled by upper layers.
+	// An exact duplicate (same atom, same interval) of a fact in the base is refused,
+	// the same way the output store refuses an exact duplicate of its own facts.
+	duplicate := false
+	if err := s.base.GetAllFacts(atom, func(tf TemporalFact) error {
+		if tf.Atom.Equals(atom) && tf.Interval.Equals(interval) {
+			duplicate = true
+		}
+		return nil
+	}); err != nil {
+		return false, err
+	}
+	if duplicate {
+		return false, nil
+	}
 	return s.Out.Add(atom, interval)
 }
 
 // AddEternal adds an eternal fact to the output store.
 func (s *TeeingTemporalStore) AddEternal(atom ast.Atom) (bool, error) {
-	return s.Out.AddEternal(atom)
+	return s.Add(atom, ast.EternalInterval())
 }
 
 // Coalesce performs interval coalescing on the output store only.
